@@ -280,7 +280,7 @@ def binop (steps : Nat) (o : Op) (d : Dep) (x y : PB) : Except Err PB :=
 def numRight (steps : Nat) (o : Op) (p : PB) (c : Rat) : Except Err PB :=
   match o with
   | .add => numberOp steps (· + ·) p c
-  | .sub => numberOp steps (· + ·) p (-c)          -- `self.add(-other)`
+  | .sub => numberOp steps (· + ·) p (-c)          -- `pbox_number_ops(self, c, sub)`; `x - c = x + (-c)` exactly
   | .mul => numberOp steps (· * ·) p c
   | .div => if c = 0 then .error .ZeroDivision else numberOp steps (· * ·) p (1 / c)
 
